@@ -56,13 +56,26 @@ def validate_traces(run: Run, sc: Path, traces: dict, kind: str, label: str) -> 
     if not items:
         return
     path = sc / f"collect_{label}_{kind}.json"
-    path.write_text(json.dumps([{"tid": x["tid"], "ev": x["ev"]} for x in items]))
+    # self-test: a copy of one accepted-looking product trace with the product's dimension corrupted must be STUCK
+    probe = next((x for x in items if x["ev"][-1]["op"] == "mul" and x["ev"][-1]["c"] in ("fin", "sym")
+                  and all(t["c"] in ("fin", "sym") for t in x["ev"])), None)
+    extra = []
+    if probe is not None:
+        ev = json.loads(json.dumps(probe["ev"]))
+        ev[-1]["d"] = [[ev[-1]["d"][0][0] + ev[-1]["d"][0][1], ev[-1]["d"][0][1]]] + ev[-1]["d"][1:]   # length exponent + 1
+        extra = [{"tid": "__selftest__", "ev": ev}]
+    path.write_text(json.dumps([{"tid": x["tid"], "ev": x["ev"]} for x in items] + extra))
     cfg = write_cfg(sc / f"collect_{label}_{kind}.cfg", invariants=["Accepted", "Stuck"], next_="Step")
     res = run_tlc("CollectTrace", cfg, sc, workers=1, env={"TRACE_FILE": str(path)}, allow_violation=False)
     run.add_tlc(res, f"trace validation ({label}): {len(items)} distinct recorded collector traces")
     verdict = {}
     for v in res.printed:
         verdict.setdefault(v[1], []).append(v)
+    if extra:
+        st = verdict.pop("__selftest__", [[None]])[0][0]
+        if st != "STUCK":
+            raise RuntimeError(f"self-test of CollectTrace failed: corrupted product dimension gave {st}")
+        run.coverage.setdefault("selftest", {})[label] = "a recorded product with its dimension corrupted is rejected"
     nodes = 0
     for x in items:
         vs = verdict.get(x["tid"], [])
